@@ -19,7 +19,29 @@
 (*  C19.inv      after an accepted request every cell+partition is within   *)
 (*               its capacity and every limited trait within its limits     *)
 (*  drift.step   the directory after the call is what ReserveCore computes  *)
-EXTENDS ReserveCore, TraceLib, Json, IOUtils
+(*                                                                          *)
+(* Beyond C19 (CellSyncCore.tla; conformance class: DRIFT, never a          *)
+(* violation).  Lines may also be Sync(cell) = cellsync.sync_allocations,   *)
+(* Assign / Unassign = assignment.update / delete; every post-state carries *)
+(* the rest of the directory record, the /allocations document of every     *)
+(* synchronised cell and the number of 'allocations' events queued.         *)
+(*  ext.dir.meta         after any call the directory (spellings, rank,     *)
+(*                       rank adjustment, max utilisation, assignments) is  *)
+(*                       what StoreX / DropX / AssignX / UnassignX compute  *)
+(*  ext.cellsync.doc     after Sync(c) the document of c has exactly one    *)
+(*                       entry per reservation of c, named <tenant>/<alloc>,*)
+(*                       with the reservation's partition, traits, SPELLED  *)
+(*                       quantities, rank, adjustment, max utilisation and  *)
+(*                       assignments (= Doc(post, c))                       *)
+(*  ext.cellsync.unique  no name twice; every entry's _id is name/c         *)
+(*  ext.cellsync.event   Sync(c) queues one event iff the document changed  *)
+(*                       (so a second Sync is a no-op), other cells'        *)
+(*                       documents and counters are untouched               *)
+(*  ext.cellsync.frame   no other call touches any document or queues an    *)
+(*                       event                                              *)
+(*  ext.cellsync.capacity every document, fresh or stale, is within         *)
+(*                       partition capacity and trait limits                *)
+EXTENDS CellSyncCore, TraceLib, Json, IOUtils
 
 Batch == JsonDeserialize(IOEnv.TRACE_FILE)
 Traces == Batch.traces
@@ -53,6 +75,70 @@ ReqOf(j) == [part |-> j.part, tg |-> j.tg, traits |-> SetOf(j.traits),
 F(name, holds) == IF holds THEN {} ELSE {name}
 E(name, cond) == IF cond THEN {name} ELSE {}
 
+-----------------------------------------------------------------------------
+(* the extended view of a logged post-state                                 *)
+AsgOf(j) == {<<a[1], a[2]>> : a \in SetOf(j.asg)}
+MetaOf(x) == [part |-> x.part, traits |-> SetOf(x.traits), sp |-> QOf(x), rank |-> x.rank,
+              adj |-> x.adj, maxu |-> x.maxu, asg |-> AsgOf(x)]
+ExtDir(rs) ==
+  [k \in {IdOf(x) : x \in SetOf(rs)} |->
+     LET x == CHOOSE y \in SetOf(rs) : IdOf(y) = k
+         m == MetaOf(x)
+     IN [part |-> m.part, traits |-> m.traits, q |-> ValOf(m.sp), sp |-> m.sp, rank |-> m.rank,
+         adj |-> m.adj, maxu |-> m.maxu, asg |-> m.asg]]
+DocList(post, c) == (CHOOSE d \in SetOf(post.docs) : d.cell = c).entries
+DocFun(es) == [nm \in {e.name : e \in SetOf(es)} |->
+                 MetaOf(CHOOSE e \in SetOf(es) : e.name = nm)]
+ExtOf(tr, post) ==
+  [parts |-> CanonParts(tr.parts),
+   dir |-> ExtDir(post.res),
+   docs |-> [c \in {d.cell : d \in SetOf(post.docs)} |-> DocFun(DocList(post, c))],
+   ev |-> [c \in {d.cell : d \in SetOf(post.docs)} |->
+             (CHOOSE e \in SetOf(post.events) : e.cell = c).n]]
+
+XReqOf(j) == [part |-> j.part, tg |-> j.tg, traits |-> SetOf(j.traits),
+              cpu |-> Sp(j.cpu), memory |-> Sp(j.memory), disk |-> Sp(j.disk),
+              rank |-> j.rank, adj |-> j.adj, maxu |-> j.maxu]
+
+ExpectedDir(px, line) ==
+  LET id == IdOf(line.id) IN
+  CASE line.ev \in {"Create", "Update"} ->
+         AfterX(px, id, XReqOf(line.r), IF line.out = "ok" THEN "ok" ELSE "invalid").dir
+    [] line.ev = "Delete" -> IF line.out = "ok" THEN DropX(px, id).dir ELSE px.dir
+    [] line.ev = "Assign" ->
+         IF line.out = "ok" THEN AssignX(px, id, line.r.pattern, line.r.priority).dir ELSE px.dir
+    [] line.ev = "Unassign" ->
+         IF line.out = "ok" THEN UnassignX(px, id, line.r.pattern).dir ELSE px.dir
+    [] OTHER -> px.dir
+
+ExtFail(tr, prepost, line, post) ==
+  LET px == ExtOf(tr, prepost)
+      qx == ExtOf(tr, post)
+      c == line.id.cell
+  IN F("ext.dir.meta", qx.dir = ExpectedDir(px, line))
+     \cup F("ext.cellsync.capacity", DocWithinCapacity(qx))
+     \cup (IF line.ev = "Sync"
+           THEN F("ext.cellsync.doc", line.out = "ok" /\ FreshOk(qx, c) /\ FreshUnitsOk(qx, c))
+                \cup F("ext.cellsync.unique",
+                       c \in DOMAIN qx.docs
+                       /\ LET es == DocList(post, c) IN
+                          /\ Cardinality({e.name : e \in SetOf(es)}) = Len(es)
+                          /\ \A e \in SetOf(es) : e.idok /\ e.idcell = c)
+                \cup F("ext.cellsync.event",
+                       LET want == SyncX(px, c) IN qx.ev = want.ev
+                         /\ \A k \in DOMAIN px.docs \ {c} : k \in DOMAIN qx.docs /\ qx.docs[k] = px.docs[k])
+           ELSE F("ext.cellsync.frame", qx.docs = px.docs /\ qx.ev = px.ev))
+
+ExtEx(tr, prepost, line, post) ==
+  LET px == ExtOf(tr, prepost)
+      c == line.id.cell
+  IN IF line.ev # "Sync" THEN E("ext.assign", line.ev \in {"Assign", "Unassign"})
+     ELSE E("ext.sync", TRUE)
+          \cup E("ext.sync.noop", ~SyncChanges(px, c))
+          \cup E("ext.sync.removes", c \in DOMAIN px.docs
+                                     /\ DOMAIN px.docs[c] \ {id.alloc : id \in IdsOfCell(px, c)} # {})
+          \cup E("ext.sync.updates", c \in DOMAIN px.docs /\ SyncChanges(px, c))
+
 RequestVerdict(pre, line, post) ==
   LET id == IdOf(line.id)
       r == ReqOf(line.r)
@@ -71,6 +157,8 @@ RequestVerdict(pre, line, post) ==
 Verdict(pre, line, post) ==
   IF line.ev = "Delete"
   THEN [fail |-> F("drift.step", line.out = "ok" /\ post = Drop(pre, IdOf(line.id))), ex |-> {}]
+  ELSE IF line.ev \in {"Sync", "Assign", "Unassign"}
+  THEN [fail |-> F("drift.step", post = pre), ex |-> {}]      \* nothing admission looks at moves
   ELSE RequestVerdict(pre, line, post)
 
 Init == /\ t \in DOMAIN Traces
@@ -81,8 +169,13 @@ Next == /\ i < Len(Traces[t].lines)
         /\ i' = i + 1
         /\ t' = t
         /\ st' = Canon(Traces[t], Traces[t].lines[i + 1].post)
-        /\ LET v == Verdict(st, Traces[t].lines[i + 1], st') IN
-           PrintT(ToJson([tid |-> Traces[t].tid, i |-> i, fail |-> v.fail, ex |-> v.ex]))
+        /\ LET v == Verdict(st, Traces[t].lines[i + 1], st')
+               xf == ExtFail(Traces[t], Traces[t].lines[i].post, Traces[t].lines[i + 1],
+                             Traces[t].lines[i + 1].post)
+               xe == ExtEx(Traces[t], Traces[t].lines[i].post, Traces[t].lines[i + 1],
+                           Traces[t].lines[i + 1].post)
+           IN PrintT(ToJson([tid |-> Traces[t].tid, i |-> i, fail |-> v.fail \cup xf,
+                             ex |-> v.ex \cup xe]))
 
 Spec == Init /\ [][Next]_<<t, i, st>>
 =============================================================================
